@@ -68,6 +68,7 @@ def declare(reg):
             "examine": "bool",
             "name": "str",
             "mbox": "opt[ref:Mailbox]",
+            "state": "enum:ClientState",
         },
         path="asimap/client.py",
     )
@@ -83,6 +84,7 @@ def declare(reg):
             "silent": "bool",
             "tag": "str",
             "ready": "ref:Event",
+            "resolve_error": "opt[opaque:Exception]",
             "timeout_cm": "opt[opaque:Timeout]",
             "user_name": "str",
             "input": "str",
